@@ -84,13 +84,21 @@ def correspond(ctx):
         tasks.append("COUNT 1 0 %d" % rng.between(3 * 10 ** 7, 6 * 10 ** 7))
         tasks.append("COUNT 1 %d %d" % (10 ** 12, 10 ** 12 + rng.between(2 * 10 ** 7, 5 * 10 ** 7)))
         tasks.append("NTH %d 0" % rng.between(2 * 10 ** 6, 4 * 10 ** 6)); tasks.append("NTH -%d %d" % (rng.between(10 ** 5, 10 ** 6), 10 ** 9))
+        # several forward / backward nth_prime calls in flight at once (their final iterator phase runs in the calling thread)
+        for _ in range(8):
+            tasks.append("NTH %s%d %d" % (rng.choice(["", "", "-"]), rng.between(500, 60000), rng.choice([0, 10 ** 6, 10 ** 9, 10 ** 10]) + rng.below(10 ** 6) + 10 ** 6))
         tasks.append("ITERSUM %d 4000" % rng.below(10 ** 9)); tasks.append("GEN %d %d" % (10 ** 8, 10 ** 8 + 10 ** 6)); tasks.append("ITERSUM 0 3000")
         # calls whose value is checked against the independent oracle (a call must be right, not just repeatable)
         for k in range(1, 7):
             a = rng.below(10 ** 7); tasks.append("COUNT %d %d %d" % (k, a, a + rng.between(10 ** 5, 10 ** 6)))
         return "\n".join(tasks) + "\nRUN %d %d\n" % (rng.choice([2, 4, 6]), 2)
+    def nth_storm():
+        # many short nth_prime calls in flight at once: their final iterator phase (and everything it allocates) runs in the calling
+        # thread, so any state shared between calls shows as a wrong value, an exception or a crash within a few batches
+        tasks = ["NTH %s%d %d" % (rng.choice(["", "", "", "-"]), rng.between(500, 60000), rng.choice([10 ** 6, 10 ** 9, 10 ** 10, 10 ** 12]) + rng.below(10 ** 6)) for _ in range(24)]
+        return "\n".join(tasks) + "\nRUN %d 4\n" % rng.choice([2, 3, 6])
     nb = 3 if not ctx.thorough else 12
-    batches_in = [conc_batch() for _ in range(nb)]
+    batches_in = [conc_batch() for _ in range(nb)] + [nth_storm() for _ in range(40 if not ctx.thorough else 200)]
     res = ps.par_run(cp, batches_in, timeout=900)
     for binp, (rc, o, e) in zip(batches_in, res):
         ev += 1
@@ -111,7 +119,7 @@ def correspond(ctx):
                                "failing_input": {"mismatches": bad[:10], "summary": done}})
         elif len(samples) < 4:
             samples.append({"concurrent_batch": done[0]})
-    dist["concurrent_batches"] = nb
+    dist["concurrent_batches"] = len(batches_in)
     if ctx.thorough:
         try:
             tp = ps.build_probe("conc_probe", "tsan")
@@ -123,7 +131,7 @@ def correspond(ctx):
             dist["tsan"] = "build failed"
     return {"evaluations": ev, "distinct_nontrivial": len(sigs) + 1,
             "explanation": EXPLANATION,
-            "rule": "static scan: every B/b/D/d symbol of libprimesieve.a (guard off) against the allow-list {sieve_size, num_threads, cpuInfo, cpu_supports_*, iostream init, relocated const tables, vtables/typeinfo}; k in {2,3,5} C++/C iterators with random interleaved histories, each stream checked against the cursor specification; 12 API calls (count_* incl. multi-threaded ones, nth_prime, iteration, generate_primes) from 2/4/6 user threads, each compared with the same call alone",
+            "rule": "static scan: every B/b/D/d symbol of libprimesieve.a (guard off) against the allow-list {sieve_size, num_threads, cpuInfo, cpu_supports_*, iostream init, relocated const tables, vtables/typeinfo}; k in {2,3,5} C++/C iterators with random interleaved histories, each stream checked against the cursor specification; 26 API calls (count_* incl. multi-threaded ones, 10 nth_prime calls forward and backward, iteration, generate_primes) from 2/4/6 user threads, each compared with the same call alone; 40 (200) storms of 24 short nth_prime calls from 2/3/6 threads, 4 rounds each",
             "samples": samples, "mismatches": sorted(mismatches, key=lambda m: 0 if m.get("failing_input") else 1)[:20], "distribution": dist, "variants": ["default", "nohook"]}
 
 
